@@ -464,8 +464,20 @@ class Probe:
 # strategies (all JSON-able)
 
 
+_TL_CACHE = {}
+
+
 def timelines(max_len=6, max_dt=4, values=NAMES, conforming=True, terminal=("C", "E", None), min_len=0, errors=("e1", "e2")):
-    """Timeline strategy. conforming=False may append events after the terminal."""
+    """Timeline strategy. conforming=False may append events after the terminal.
+    The strategy object is cached per parameter set (building a composite per call is slow)."""
+    key = (max_len, max_dt, tuple(values), conforming, tuple(terminal), min_len, tuple(errors))
+    if key in _TL_CACHE:
+        return _TL_CACHE[key]
+    _TL_CACHE[key] = _timelines(max_len, max_dt, values, conforming, terminal, min_len, errors)
+    return _TL_CACHE[key]
+
+
+def _timelines(max_len, max_dt, values, conforming, terminal, min_len, errors):
 
     @st.composite
     def _tl(draw):
